@@ -92,7 +92,8 @@ def execute(G, c):
             raise core.Failure("value:%s" % c["op"], "expected %r; %s" % (exp[1].py, info))
     else:
         got = out.value
-        if not isinstance(got, dict) or list(got.keys()) != [k for k, _ in exp[1]]:
+        # the statement fixes the *set* of keys, not their order
+        if not isinstance(got, dict) or sorted(got.keys()) != sorted(k for k, _ in exp[1]):
             raise core.Failure("dict-keys", "expected keys %r; %s" % ([k for k, _ in exp[1]], info))
         for k, v in exp[1]:
             if not gen.py_equal(v.py, got[k]):
